@@ -11,7 +11,7 @@ from . import c05
 from .c04 import ScriptedChoice
 
 ID = "C19"
-LEAN_MODULE = "CKT.Props.C19Moves"
+LEAN_MODULE = "CKT.Props.C19PTM"
 THEOREMS = [
     "CKT.C19.optimizeResets_wire", "CKT.C19.optimizeResets_shape", "CKT.C19.optimizeResets_only",
     # T19.1 (Props/C19Moves): wire level, splice level, model level with decidable hypotheses, Move basis, both clauses together
@@ -20,6 +20,8 @@ THEOREMS = [
     "CKT.C19.moveNameBasis_moveLike", "CKT.C19.moveLike1_of_basis", "CKT.C19.condB_sound", "CKT.C19.admissibleB_sound",
     "CKT.C19.noReuseB_sound", "CKT.C19.experimentFor_reset_free", "CKT.C19.no_reuse_reset_free_and_same_statistics",
     "CKT.C12Sem.optimizeResets_obs",
+    # second clause without assumed laws: the reset laws are proved for the Pauli-expectation semantics (C12PTM)
+    "CKT.C12PTM.ptm", "CKT.C12PTM.optimizeResets_statistics", "CKT.C19PTM.no_reuse_reset_free_and_same_statistics_ptm",
 ]
 RULE = ("circuits on 1-4 qubits with 1-3 wire-cut markers at any position (first/last on a wire, interleaved) pushed through cut_wires -> "
         "expand_observables -> partition_problem (automatic / explicit) -> generate_cutting_experiments, observables incl. identity on whole "
